@@ -1,8 +1,10 @@
-import Blots.Lemmas.EvalHof
+import Blots.Lemmas.EvalDepthWitness
+import Blots.Lemmas.CallPureNSB
 /-
   C13 — via / where / into agree with map / filter / application for every function.
 
-  Statements only (helpers in `Blots/Lemmas/EvalHof.lean`, `EvalFuel.lean`, `EvalDepth.lean`).
+  Statements only (helpers in `Blots/Lemmas/EvalHof.lean`, `EvalFuel.lean`, `EvalDepth.lean`,
+  `EvalDepthMono.lean`, `CallPureNSB.lean`, `EvalDepthWitness.lean`).
   In the model
   * `L via f`   = `evalBin ops (fuel+1) depth .via (.list L) f s`,
     `map(L, f)` = `callFn ops (fuel+2) (.builtin "map") this [.list L, f] depth s`,
@@ -22,8 +24,8 @@ import Blots.Lemmas.EvalHof
 -/
 namespace Blots.C13
 
-/-- `NF x`: `x` did not run out of fuel -/
-local macro "NF " x:term:max : term => `(Prod.fst $x ≠ Outcome.fuel)
+/- `NF x` / `ND x` (Lemmas/EvalHof.lean) abbreviate `x.1 ≠ .fuel` / `x.1 ≠ .err .depth`:
+   the call did not run out of fuel / did not end in the depth error. -/
 
 /-! #### 1. every form unfolds to a shared worker -/
 
@@ -261,6 +263,144 @@ theorem map_is_via_two_levels_deeper (ops : NumOps) (n m depth : Nat) (this : Va
   · rw [whereCalls_fuel_mono ops hm hnf]
   · rw [whereCalls_fuel_mono ops hm hnf]
 
+/-! #### 5b. the call depth
+
+  The depth argument is consulted in two places only: the guard `depth > MAX_DEPTH` (= 1000) of
+  `callFn`, and `alreadyDefined depth …` of a top-level assignment (depth 0 versus positive).
+  Function bodies run at `depth + 1 > 0`, so for calls only the guard matters — EXCEPT that
+  `sort_by` swallows every failure of its key function, the depth error included
+  (functions.rs `_ => Ordering::Equal`): `sort_by([3,1,2], abs)` evaluated at call depth 999
+  returns `[3,1,2]` (every key call fails with the depth error), at depth 998 `[1,2,3]`.  Hence:
+  * the statements below are for `sort_by`-free inputs: `Value.nsb` / `Expr.nsb` / `nsbEnv`
+    ("no `sort_by` built-in value reachable": not in the function, its captured scope and body,
+    the list, or the environment), preserved by evaluation (`Blots.pres`);
+  * the ~75 callback-free built-ins keep the invariant too (`pure_builtins_keep_invariant`): their
+    results contain no function value that was not in their arguments. -/
+
+/-- the callback-free built-ins applied to `sort_by`-free arguments return `sort_by`-free values -/
+theorem pure_builtins_keep_invariant (ops : NumOps) (name : String) (args : List Value) (v : Value)
+    (h : callPure ops name args = some (.ok v)) (ha : Value.nsbList args = true) : v.nsb = true :=
+  callPure_keeps_nsb ops name args v h ha
+
+/-- success or failure other than the depth error at a deeper starting depth ⇒ the SAME outcome
+    and state at every shallower starting depth (`callFn`: lambdas, closures, built-ins alike) -/
+theorem depth_antitone (ops : NumOps) (n d d' : Nat) (fv this : Value)
+    (args : List Value) (s : ES) (hdd : d' ≤ d) (hf : fv.nsb = true) (ht : this.nsb = true)
+    (ha : Value.nsbList args = true) (hs : nsbEnv s.env = true)
+    (h : ND (callFn ops n fv this args d s)) :
+    callFn ops n fv this args d' s = callFn ops n fv this args d s :=
+  (anti (callPure_keeps_nsb ops) n).callFn d d' fv this args s hdd hf ht ha hs h
+
+/-- the same for the workers -/
+theorem depth_antitone_workers (ops : NumOps) (n d d' : Nat) (f : Value)
+    (w : Bool) (L : List Value) (i : Nat) (s : ES) (hdd : d' ≤ d) (hf : f.nsb = true)
+    (hL : Value.nsbList L = true) (hs : nsbEnv s.env = true) :
+    (ND (mapCalls ops n f w L i d s) → mapCalls ops n f w L i d' s = mapCalls ops n f w L i d s) ∧
+    (ND (whereCalls ops n f w L i d s) → whereCalls ops n f w L i d' s = whereCalls ops n f w L i d s) ∧
+    (∀ q, ND (quantCalls ops n f w q L i d s) →
+      quantCalls ops n f w q L i d' s = quantCalls ops n f w q L i d s) ∧
+    (∀ acc, acc.nsb = true → ND (foldCalls ops n f w acc L i d s) →
+      foldCalls ops n f w acc L i d' s = foldCalls ops n f w acc L i d s) :=
+  ⟨(anti (callPure_keeps_nsb ops) n).mapCalls d d' f w L i s hdd hf hL hs, (anti (callPure_keeps_nsb ops) n).whereCalls d d' f w L i s hdd hf hL hs,
+   fun q => (anti (callPure_keeps_nsb ops) n).quantCalls d d' f w q L i s hdd hf hL hs,
+   fun acc ha => (anti (callPure_keeps_nsb ops) n).foldCalls d d' f w acc L i s hdd hf ha hL hs⟩
+
+/-- the invariant is kept: a successful call on `sort_by`-free inputs returns a `sort_by`-free
+    value and leaves a `sort_by`-free environment -/
+theorem sort_by_free_is_invariant (ops : NumOps) (n d : Nat) (fv this : Value)
+    (args : List Value) (s : ES) (v : Value) (s' : ES) (h : callFn ops n fv this args d s = (.ok v, s'))
+    (hf : fv.nsb = true) (ht : this.nsb = true) (ha : Value.nsbList args = true)
+    (hs : nsbEnv s.env = true) : v.nsb = true ∧ nsbEnv s'.env = true :=
+  (pres (callPure_keeps_nsb ops) n).callFn h hf ht ha hs
+
+/-- THE RESULT OR FAILURE IS THE SAME WHICHEVER FORM IS USED — what is proved:
+    (1) if `map(L, f)` (the deeper form) returns anything but the depth error, `L via f` returns
+        exactly that (outcome and state), at every fuel that is enough;
+    (2) if `L via f` would also not hit the depth limit when started two call levels deeper,
+        `map(L, f)` returns exactly what `L via f` returns. -/
+theorem via_eq_map_partial (ops : NumOps) (n m depth : Nat) (this : Value)
+    (L : List Value) (f : Value) (s : ES) (ar : Gen.Arity) (h : arityOf f = some ar)
+    (hd : depth ≤ MAX_DEPTH) (hf : f.nsb = true) (hL : Value.nsbList L = true)
+    (hs : nsbEnv s.env = true) (hm : n ≤ m) :
+    (NF (callFn ops (n+2) (.builtin "map") this [.list L, f] depth s) →
+     ND (callFn ops (n+2) (.builtin "map") this [.list L, f] depth s) →
+      evalBin ops (m+1) depth .via (.list L) f s =
+        callFn ops (n+2) (.builtin "map") this [.list L, f] depth s) ∧
+    (NF (evalBin ops (n+1) (depth + 2) .via (.list L) f s) →
+     ND (evalBin ops (n+1) (depth + 2) .via (.list L) f s) →
+      callFn ops (m+2) (.builtin "map") this [.list L, f] depth s =
+        evalBin ops (n+1) depth .via (.list L) f s) := by
+  have hd' : ¬ depth > MAX_DEPTH := by omega
+  simp only [map_is_map_calls ops _ depth this L f s ar h, via_is_map_calls ops _ _ L f s ar h,
+    if_neg hd', wrapList_fst_ne_fuel, wrapList_fst_ne_depth]
+  have ha := fun hnd => (anti (callPure_keeps_nsb ops) n).mapCalls (depth + 2) depth f (ar.canAccept 2) L 0 s (by omega)
+    hf hL hs hnd
+  refine ⟨fun hnf hnd => ?_, fun hnf hnd => ?_⟩
+  · rw [← ha hnd] at hnf ⊢
+    rw [mapCalls_fuel_mono ops hm hnf]
+  · rw [mapCalls_fuel_mono ops hm hnf, ha hnd]
+
+/-- the same for `where` / `filter` -/
+theorem where_eq_filter_partial (ops : NumOps) (n m depth : Nat) (this : Value)
+    (L : List Value) (f : Value) (s : ES) (ar : Gen.Arity) (h : arityOf f = some ar)
+    (hd : depth ≤ MAX_DEPTH) (hf : f.nsb = true) (hL : Value.nsbList L = true)
+    (hs : nsbEnv s.env = true) (hm : n ≤ m) :
+    (NF (callFn ops (n+2) (.builtin "filter") this [.list L, f] depth s) →
+     ND (callFn ops (n+2) (.builtin "filter") this [.list L, f] depth s) →
+      evalBin ops (m+1) depth .where_ (.list L) f s =
+        callFn ops (n+2) (.builtin "filter") this [.list L, f] depth s) ∧
+    (NF (evalBin ops (n+1) (depth + 2) .where_ (.list L) f s) →
+     ND (evalBin ops (n+1) (depth + 2) .where_ (.list L) f s) →
+      callFn ops (m+2) (.builtin "filter") this [.list L, f] depth s =
+        evalBin ops (n+1) depth .where_ (.list L) f s) := by
+  have hd' : ¬ depth > MAX_DEPTH := by omega
+  simp only [filter_is_where_calls ops _ depth this L f s ar h, where_is_where_calls ops _ _ L f s ar h,
+    if_neg hd']
+  have ha := fun hnd => (anti (callPure_keeps_nsb ops) n).whereCalls (depth + 2) depth f (ar.canAccept 2) L 0 s (by omega)
+    hf hL hs hnd
+  refine ⟨fun hnf hnd => ?_, fun hnf hnd => ?_⟩
+  · rw [← ha hnd] at hnf ⊢
+    rw [whereCalls_fuel_mono ops hm hnf]
+  · rw [whereCalls_fuel_mono ops hm hnf, ha hnd]
+
+/-- `x into f` against the call expression `g(a)` (callee evaluating to `f`, argument to `x`):
+    no depth difference at all, both are the same `callFn` at the same depth
+    (`into_is_call`, `call_expr_is_call`) -/
+theorem into_eq_call (ops : NumOps) (fuel depth : Nat) (g : Expr) (args : List Expr) (f x : Value)
+    (s s1 s2 : ES) (hg : eval ops fuel depth g s = (.ok f, s1))
+    (ha : evalList ops fuel depth args s1 = (.ok [x], s2)) (hx : ∀ v, x ≠ .spread v)
+    (hc : f.isCallable = true) :
+    eval ops (fuel+1) depth (.call g args) s = evalBin ops (fuel+1) depth .into x f s2 := by
+  rw [call_expr_is_call ops fuel depth g args f [x] s s1 s2 hg ha hc, into_is_call ops fuel depth x f s2 hc]
+  cases x <;> simp_all [flattenSpreads]
+
+/-- The unrestricted statement: "for every function, list and state, whenever both forms have
+    enough fuel they return the same outcome and state".  It is FALSE, but only in the band of two
+    call levels next to the limit of 1000: take `f` a function that recurses exactly 999 levels
+    deep (`r = n => if n <= 0 then 0 else r(n - 1)` applied to 997): `[997] via r` at top level
+    reaches depth 999 and succeeds, `map([997], r)` runs the same calls two levels deeper, reaches
+    1001 and fails with the depth error.  With `sort_by` inside `f` both forms can even SUCCEED
+    with different values (the witness above).  `via_eq_map_partial` is everything outside
+    that band. -/
+def via_eq_map_statement : Prop :=
+  ∀ (ops : NumOps) (fuel depth : Nat) (this : Value) (L : List Value) (f : Value) (s : ES) (ar : Gen.Arity),
+    arityOf f = some ar →
+    NF (callFn ops (fuel+2) (.builtin "map") this [.list L, f] depth s) →
+    NF (evalBin ops (fuel+1) depth .via (.list L) f s) →
+    callFn ops (fuel+2) (.builtin "map") this [.list L, f] depth s =
+      evalBin ops (fuel+1) depth .via (.list L) f s
+
+/-- … and it IS false: `f = l => sort_by(l, to_string)`, `L = [["b","a"]]`, both forms at call
+    depth 996 (`Lemmas/EvalDepthWitness.lean`): `L via f` = `[["a","b"]]` (sorted), `map(L, f)` =
+    `[["b","a"]]` — the key calls of the deeper form land at depth 1001, fail with the depth
+    error, and `sort_by` swallows the failure.  Both succeed, with different values. -/
+theorem via_eq_map_statement_false : ¬ via_eq_map_statement := by
+  intro h
+  have := h toyOps 11 996 .null [listBA] sortFn sortState (.exact 1) rfl
+    (by rw [sort_map_996]; simp) (by rw [sort_via_996]; simp)
+  rw [sort_map_996, sort_via_996] at this
+  simp [listAB, listBA] at this
+
 /-! #### 6. self reference -/
 
 /-- every worker passes the function value itself as `this` (the value bound to the function's
@@ -303,14 +443,14 @@ set_option maxRecDepth 4000 in
 example : callFn toyOps 9 (.builtin "map") (.builtin "map") [.list [.bool true, .bool false], recFn] 0
     recState = (.ok (.list [.str "done", .str "done"]), recState) := by
   rw [map_is_map_calls toyOps 7 0 _ _ recFn recState (.exact 1) rfl]
-  simp [wrapList, isListV, recFn, Value.isCallable, arityOf, lambdaArity,
+  simp [wrapList, recFn, Value.isCallable, lambdaArity,
     Gen.Arity.canAccept, mapCalls, callFn, checkArity, MAX_DEPTH, nameOf, recState, lookupAL, envGet,
     bindParams, bindParams.go, insertAL, eval, recBody, evalList, flattenSpreads]
 
 set_option maxRecDepth 4000 in
 example : evalBin toyOps 8 0 .into (.bool true) recFn recState = (.ok (.str "done"), recState) := by
-  simp [evalBin_succ, isDot, isListV, recFn, Value.isCallable, arityOf, lambdaArity,
-    Gen.Arity.canAccept, mapCalls, callFn, checkArity, MAX_DEPTH, nameOf, recState, lookupAL, envGet,
+  simp [evalBin_succ, isDot, isListV, recFn, Value.isCallable, lambdaArity,
+    Gen.Arity.canAccept, callFn, checkArity, MAX_DEPTH, nameOf, recState, lookupAL, envGet,
     bindParams, bindParams.go, insertAL, eval, recBody, evalList, flattenSpreads]
 
 /-- a built-in as the function, with the index: `abs` accepts exactly one argument, so no index -/
@@ -319,6 +459,9 @@ example : arityOf (.builtin "abs") = some (.exact 1) := by decide +kernel
 example : ∀ b ∈ [Value.bool true, .bool false], ∃ p, b = Value.bool p := by simp
 example : [Value.bool true, .bool false].all isTrueV = false ∧
     [Value.bool true, .bool false].any isTrueV = true := by decide
+
+/-- the witness function is (of course) not `sort_by`-free; the recursive example is -/
+example : sortFn.nsb = false ∧ recFn.nsb = true ∧ nsbEnv recState.env = true := by decide
 
 end examples
 
